@@ -311,6 +311,27 @@ func variants(thorough bool) []variant {
 			return frame(h), 0, ""
 		})
 	}
+	// a registered key signs a handshake whose binding is empty, a prefix or an extension of this
+	// connection's binding: it does not contain this connection's binding
+	for _, n := range []int{0, 1, 8, 16, 31, 33} {
+		n := n
+		add("binding", fmt.Sprintf("binding-length-%d-resigned", n), func(e *env, b, ob, of []byte) ([]byte, uint16, string) {
+			h := validHandshake(e.ids[0], b)
+			if n <= len(b) {
+				h.TLSBinding = append([]byte(nil), b[:n]...)
+			} else {
+				h.TLSBinding = append(append([]byte(nil), b...), make([]byte, n-len(b))...)
+			}
+			netlib.SignHandshake(&h, e.ids[0].key())
+			return frame(h), 0, ""
+		})
+	}
+	add("binding", "binding-suffix-16-resigned", func(e *env, b, ob, of []byte) ([]byte, uint16, string) {
+		h := validHandshake(e.ids[0], b)
+		h.TLSBinding = append([]byte(nil), b[len(b)-16:]...)
+		netlib.SignHandshake(&h, e.ids[0].key())
+		return frame(h), 0, ""
+	})
 	// --- key types
 	for _, kt := range []string{"p384", "rsa", "ed25519"} {
 		kt := kt
